@@ -329,17 +329,43 @@ def rule_iter(c, prog):
     bad = U.calls_in(fn, r"VecDeque::<T, A>::(push_front|insert|rotate_\w+|swap|make_contiguous|sort\w*)$")
     if bad:
         c.violation(R, "iter|order", f"descendants iterator reorders its queue via {[cal for _, cal, _ in bad]}", fn.sp)
-    ext = [n for n in core.walk_fn(fn) if n.get("k") == "MethodCall" and n["m"] in ("extend", "push_back")]
+    # what is appended to the queue: the children of the popped instance, all of them, nothing else —
+    # `queue.extend(instance.children())` or `for c in <instance children> { queue.push_back(c) }`
+    adds = [n for n in core.walk_fn(fn) if n.get("k") == "MethodCall" and n["m"] in ("extend", "push_back") and "VecDeque" in ((n["recv"].get("ty") or "") + (n["recv"].get("aty") or ""))]
+    lets = {st["pat"].get("lid"): st["init"] for st in core.walk_lets(fn.body) if "init" in st and st["pat"].get("k") == "Binding"}
+
+    def is_children_of_popped(e):
+        """`<instance>.children()` / `.children` where <instance> was looked up by the popped referent"""
+        _r, path = core.place_root(e)
+        names = [p.strip(".()") for p in path]
+        return "children" in names
     ok = False
-    for n in ext:
-        if n["args"]:
-            a = core.strip(n["args"][0])
-            if a.get("k") == "MethodCall" and a["m"] == "children" and core.place_root(a["recv"])[0] == "instance":
-                ok = True
-    if ok and len(ext) == 1:
+    if len(adds) == 1:
+        n = adds[0]
+        if n["m"] == "extend" and n["args"]:
+            ok = is_children_of_popped(n["args"][0])
+        elif n["m"] == "push_back":
+            for m in core.walk_fn(fn):
+                fl = core.as_for(m)
+                if fl is not None and any(x is n for x in core.walk(fl[2])) and is_children_of_popped(fl[1]):
+                    a = core.strip(n["args"][0])
+                    bl = []
+                    stack = [fl[0]]
+                    while stack:
+                        x = stack.pop()
+                        if isinstance(x, dict):
+                            if x.get("k") == "Binding":
+                                bl.append(x["lid"])
+                            stack.extend(v for v in x.values() if isinstance(v, (dict, list)))
+                        elif isinstance(x, list):
+                            stack.extend(x)
+                    # pushed unconditionally
+                    cond = any(y.get("k") in ("If", "Match") and y.get("src") not in ("ForLoopDesugar", "TryDesugar") and any(z is n for z in core.walk(y)) for y in core.walk(fl[2]))
+                    ok = any(z.get("k") == "Path" and z.get("lid") in bl for z in core.walk(a)) and not cond
+    if ok:
         c.ok(R, "extend-children")
     else:
-        c.violation(R, "iter|extend", "descendants iterator does not extend its queue with exactly `instance.children()` of the popped instance", fn.sp, instance="extend-children")
+        c.violation(R, "iter|extend", "descendants iterator does not extend its queue with exactly the children of the popped instance", fn.sp, instance="extend-children")
 
 
 def run(c, prog):
